@@ -351,7 +351,9 @@ let run_case oc (line : string) =
             | "FI" ->
                 if not (L.mem a.(1) [ "r"; "t" ] && L.mem a.(2) [ "exact"; "none"; "low"; "high" ]) then "X"
                 else out_s (do_step (Rodeo.FromIter (a.(1) = "t", hexlist a.(3))))
-            | "EX" -> out_s (do_step (Rodeo.Extend (slot 1, hexlist a.(2))))
+            | "EX" ->
+                if Array.length a > 3 && not (L.mem a.(3) [ "exact"; "none"; "low"; "high" ]) then "X"
+                else out_s (do_step (Rodeo.Extend (slot 1, hexlist a.(2))))
             | _ -> "X"
             with Failure _ | Invalid_argument _ | Not_found -> "X"
           in
